@@ -99,6 +99,9 @@ fn main() {
         LAST_PANIC.with(|l| *l.borrow_mut() = s);
     }));
     let mut rep = Report::new(&prop, &cfg.tier, cfg.seed, cfg.shard, cfg.nshards);
+    if !out.is_empty() {
+        rep.partial_path = Some(format!("{out}.partial"));
+    }
     let t0 = Instant::now();
     let r = std::panic::catch_unwind(std::panic::AssertUnwindSafe(|| props::run(&prop, &cfg, &mut rep)));
     let wall = t0.elapsed().as_secs_f64();
